@@ -254,16 +254,30 @@ func runC14Drain(c *Ctx, ent *entries) {
 	p := c.P
 	const P = "C14"
 	hc := ent.HandleCall
-	bts := p.traceBuffers(hc)
-	for _, anon := range hc.AnonFuncs {
-		bts = append(bts, p.traceBuffers(anon)...)
+	// every function on the connection path that runs before the procedure is dispatched
+	pre := []*ssa.Function{hc, ent.ConnLoop, ent.NFSCall}
+	for _, f := range []*ssa.Function{hc, ent.ConnLoop, ent.NFSCall} {
+		pre = append(pre, f.AnonFuncs...)
 	}
+	var bts []*bufTrace
 	n := 0
+	for _, f := range pre {
+		bts = append(bts, p.traceBuffers(f)...)
+		// nfsError* helpers called outside procedure handlers build a procedure-independent body too
+		for _, call := range calls(f) {
+			callee := staticCallee(call)
+			if callee == nil || !strings.HasPrefix(callee.Name(), "nfsError") || callee.Pkg != p.Pkg {
+				continue
+			}
+			n++
+			c.bad(P, "drain", fmt.Sprintf("%s helper=%s#%d", fnKey(f), callee.Name(), ordinal(f, call)), p.instrPos(call), "a result body is built by "+callee.Name()+" before the procedure is known: it is well-formed only for the procedures whose failure arm has exactly that shape, and malformed (missing post_op_attr/wcc_data, or trailing bytes for void results) for all others")
+		}
+	}
 	for _, bt := range bts {
 		for _, path := range bt.Paths {
 			n++
 			toks := path[:len(path)-1]
-			key := "HandleCall body=[" + tokString(toks) + "]"
+			key := fnKey(bt.Fn) + " body=[" + tokString(toks) + "]"
 			pos := p.instrPos(bt.Buf)
 			// the body is sent for whatever program/procedure the call named: check against every fail grammar
 			if len(toks) == 0 || toks[0].Kind != "U32" || toks[0].Const == nil {
